@@ -172,9 +172,9 @@ impl simcore::Engine for ClientEngine {
     }
     fn rule(&self) -> String {
         match self.prop {
-            "C16" => "seed -> feed of 3..40 lines for 1..5 addresses (well-formed DF17/DF18 identification/position/velocity, DF11/DF4/DF5 replies, upper/lower case; malformed classes: empty, ';', '*;', too short, odd digits, non-hex, non-ASCII, invalid UTF-8, all-zero, undecodable DF, truncated frame, over-long garbage) -> segmentation (line aligned, many lines per segment, random mid-line cuts, one-byte segments, cuts before ';' / newline) with gaps from {0,1,49,50,51,60,200,5000} ms around the 50 ms read timeout, coalescing coins, processing delays, EINTR, FIN/RST at line boundaries or mid-line, refused/timed-out connects and several sessions with --retry-tcp; client = radar (pty, F3 pressed periodically, q at the end) or 1090 (stdout captured). Every 10th run has all fault kinds off. Non-trivial = at least one fault fired and one probe reached; distinct = fingerprint of seam log + terminal output.".to_string(),
-            "C17" => "seed -> option set (touchscreen, the five disable flags, limit-parsing, retry-tcp, max-range, scale, filter-time 0..120 s, 0..3 locations) x terminal size {1x1 .. 300x100} x benign traffic of 0..6 aircraft that expire during the run x 5..80 operator events over the full alphabet (function keys, Tab, arrows, Enter, toggles, zoom, keys with modifiers, mouse down/up/drag/scroll/move at tab hit-boxes, touchscreen buttons, row 0 and beyond the screen, resizes, focus, paste), several per poll window, held keys / spinning wheel (5..30 repeats), refused connects first, server drop and re-accept under --retry-tcp, slow iterations, non-ASCII location names; quit (q or ctrl-c) at a random point incl. during the connect wait. 8 % of the faulted runs instead start radar with one invalid option value and look only at the exit status. Non-trivial = at least one fault kind fired (resize, mouse, tiny terminal, refused connect, slow iteration, invalid value) and one probe reached; distinct = fingerprint of seam log + terminal output.".to_string(),
-            "C18" => "seed -> terminal 110..200 x 40..60, filter-time {2,3,1000} s, location markers at the receiver and at offsets d / 2d on each axis, 1..6 aircraft placed in all four quadrants at distinct latitude offsets (identification, position pairs, velocity; one line per segment >= 120 ms apart, some stop early and expire), label toggles. Phase A: tab switches and toggles interleaved with the traffic; phase B (traffic over): zoom / pan / drag / scroll / centre-on-selected-aircraft sequence, reset, then Airplanes, Stats and Map again. Reference = real tracker driven at exactly the virtual times of the child's seam log (every RD and every prune). Non-trivial = at least one fault kind fired (expiry while displayed, view-control sequence) and one probe reached.".to_string(),
+            "C16" => "seed -> feed of 3..40 lines (4 % backlog bursts of 260..460 lines; thorough: up to 120) for 1..5 addresses, partly random 24-bit (well-formed DF17/DF18 identification/position/velocity and replies of every other downlink format DF0/4/5/11/16/20/21/24-31 with arbitrary payload, lower/upper/mixed-case hex; malformed classes: empty, ';', '*;', too short, odd digits, non-hex, non-ASCII, invalid UTF-8, all-zero, undecodable DF, truncated frame, garbage runs of 300..21000 bytes) -> segmentation (line aligned, many lines per segment, random mid-line cuts, one-byte segments, cuts before ';' / newline) with gaps from {0,1,49,50,51,60,200,5000} ms around the 50 ms read timeout, coalescing coins, processing delays, EINTR, FIN/RST at line boundaries or mid-line, refused/timed-out connects and several sessions with --retry-tcp; client = radar (pty, F3 pressed periodically, q at the end) or 1090 (stdout captured). Every 10th run has all fault kinds off. Non-trivial = at least one fault fired and one probe reached; distinct = fingerprint of seam log + terminal output.".to_string(),
+            "C17" => "seed -> option set (touchscreen, the five disable flags, limit-parsing, retry-tcp, max-range, scale, filter-time 0..120 s, 0..3 locations) x terminal size {1x1 .. 300x100} x benign traffic of 0..6 aircraft that expire during the run x 5..80 operator events over the full alphabet (function keys, Tab, arrows, Enter, toggles, zoom, keys with modifiers, mouse down/up/drag/scroll/move at tab hit-boxes, touchscreen buttons, row 0 and beyond the screen, resizes, focus, paste), several per poll window, held keys / spinning wheel (5..30 repeats), refused connects first, server drop and re-accept under --retry-tcp, slow iterations, non-ASCII location names; quit (q or ctrl-c) at a random point incl. during the connect wait; receivers incl. pole / antimeridian / equator, extreme location coordinates, aircraft on top of the receiver, random velocity vectors; 0.3 % compass-sweep runs (18000 headings in 0.02 degree steps), thorough tier: coverage-sweep runs (17000 cells). 8 % of the faulted runs instead start radar with one invalid option value and look only at the exit status. Non-trivial = at least one fault kind fired (resize, mouse, tiny terminal, refused connect, slow iteration, invalid value) and one probe reached; distinct = fingerprint of seam log + terminal output.".to_string(),
+            "C18" => "seed -> receiver in one of eight places (all four hemispheres, next to the equator / prime meridian), terminal 110..200 x 40..60, filter-time {2,3,1000} s, location markers at the receiver and at offsets d / 2d on each axis, 1..6 aircraft placed in all four quadrants at distinct latitude offsets (identification, position pairs, velocity; one line per segment >= 120 ms apart, some stop early and expire, some come back after expiry), label toggles; 3 % 'many' runs (more aircraft than one table page), 0.6 % long-count runs (10000-line backlog of one aircraft). Phase A: tab switches and toggles interleaved with the traffic; phase B (traffic over): zoom / pan / drag / scroll / centre-on-selected-aircraft (+ held zoom key) sequence, reset, then Airplanes, Stats and Map again. Reference = real tracker driven at exactly the virtual times of the child's seam log (every RD and every prune). Non-trivial = at least one fault kind fired (expiry while displayed, view-control sequence) and one probe reached.".to_string(),
             _ => String::new(),
         }
     }
